@@ -25,7 +25,7 @@ fn main() {
     let args: Vec<String> = std::env::args().collect();
     let seed: u64 = args[1].parse().unwrap();
     let n: usize = args[2].parse().unwrap();
-    std::panic::set_hook(Box::new(|_| {}));
+    ezpz_verif_harness::oracle::arm_crash_reporter("C01");
     let mut rng = Rng::new(seed);
     let mut out: Vec<Violation> = Vec::new();
     let (mut systems, mut oks, mut verdicts, mut listed, mut exempt, mut angle_variants) = (0usize, 0usize, 0usize, 0usize, 0usize, 0usize);
@@ -112,6 +112,7 @@ fn main() {
                 .collect();
         }
         systems += 1;
+        ezpz_verif_harness::oracle::note_current(&sys);
         for analysis in [false, true] {
             let res = if analysis {
                 solve_analysis(&sys.reqs, sys.guesses.clone(), sys.config()).map(|o| o.outcome)
